@@ -907,8 +907,8 @@ End Converged.
 (* rows only grow *)
 Lemma known_ensure_gap s c a : known s a = true -> known (ensure_gap s c) a = true.
 Proof.
-  unfold ensure_gap. destruct (Nat.eqb _ _); auto. destruct a as [c' n|k]; simpl; auto.
-  intro H. apply Nat.ltb_lt in H. apply Nat.ltb_lt.
+  unfold ensure_gap. destruct (Nat.eqb _ _); auto. destruct a as [c' n|k]; auto.
+  unfold known. cbn [kcs]. intro H. apply Nat.ltb_lt in H. apply Nat.ltb_lt.
   destruct (N.eq_dec c c') as [E|E].
   - subst. rewrite nget_nset_same. lia.
   - rewrite nget_nset_other; auto.
@@ -964,15 +964,17 @@ Qed.
 (* ================================================================================================ *)
 (* the address gap *)
 Lemma lead_le u k f : lead u k f <= f.
-Proof. revert k. induction f; intro k; simpl; auto. destruct k; [lia|]. destruct (u k); [lia|]. specialize (IHf k). lia. Qed.
+Proof. revert k. induction f as [|f IH]; intro k; destruct k as [|k]; simpl; try lia. destruct (u k); [lia|]. specialize (IH k). lia. Qed.
 
 Lemma lead_shrink u : forall g k e, lead u k g = e -> lead u k e = e.
 Proof.
-  induction g as [|g IH]; intros k e H; simpl in H.
-  - subst. destruct k; reflexivity.
-  - destruct k as [|k]; [subst; reflexivity|]. destruct (u k) eqn:U.
+  induction g as [|g IH]; intros k e H.
+  - destruct k; simpl in H; subst; reflexivity.
+  - destruct k as [|k]; simpl in H.
     + subst. reflexivity.
-    + subst e. simpl. rewrite U. f_equal. apply IH. reflexivity.
+    + destruct (u k) eqn:U.
+      * subst. reflexivity.
+      * subst e. simpl. rewrite U. f_equal. apply IH. reflexivity.
 Qed.
 
 Lemma lead_extend u k : (forall n, k <= n -> u n = false) ->
@@ -1012,8 +1014,8 @@ Proof. intro E. unfold used, get_hist. rewrite E. reflexivity. Qed.
 
 Lemma chain_ok_ext s s' c : hists s' = hists s -> kcs s' = kcs s -> gaps s' = gaps s -> chain_ok s c -> chain_ok s' c.
 Proof.
-  intros A B C. unfold chain_ok. rewrite B, C. intro H. rewrite <- H at 2.
-  f_equal. apply lead_ext with (u := fun n => used s (W c n)); auto.
+  intros A B C. unfold chain_ok. rewrite B, C. intro H.
+  apply lead_ext with (u := fun n => used s (W c n)); auto.
   intros n. rewrite (used_ext s s'); auto.
 Qed.
 
@@ -1022,7 +1024,7 @@ Proof.
   intro KH. unfold ensure_gap.
   destruct (Nat.eqb (lead (fun n => used s (W c n)) (nget (kcs s) c) (nget (gaps s) c)) (nget (gaps s) c)) eqn:E.
   - apply Nat.eqb_eq in E. exact E.
-  - unfold chain_ok. simpl. rewrite nget_nset_same.
+  - unfold chain_ok. cbn [kcs gaps]. rewrite nget_nset_same.
     set (u := fun n => used s (W c n)). set (k := nget (kcs s) c). set (gp := nget (gaps s) c).
     set (e := lead u k gp). assert (LE: e <= gp) by apply lead_le.
     change (lead (fun n => used _ (W c n)) (k + (gp - e)) gp) with (lead u (k + (gp - e)) gp).
@@ -1036,24 +1038,532 @@ Qed.
 Lemma ensure_gap_other s c c' : c <> c' -> chain_ok s c' -> chain_ok (ensure_gap s c) c'.
 Proof.
   intros N H. unfold ensure_gap. destruct (Nat.eqb _ _); auto.
-  unfold chain_ok in *. simpl. rewrite nget_nset_other; auto.
+  unfold chain_ok in *. cbn [kcs gaps]. rewrite nget_nset_other; auto.
 Qed.
 
 Lemma ensure_gap_k0 s c c' : nget (kcs s) c' = 0 -> c <> c' -> nget (kcs (ensure_gap s c)) c' = 0.
 Proof.
-  intros H N. unfold ensure_gap. destruct (Nat.eqb _ _); auto. simpl. rewrite nget_nset_other; auto.
+  intros H N. unfold ensure_gap. destruct (Nat.eqb _ _); auto. cbn [kcs]. rewrite nget_nset_other; auto.
 Qed.
 
-Lemma ginv_ensure_gap s c : GInv s -> GInv (ensure_gap s c).
+Definition chain_disj (s : state) (c : N) : Prop :=
+  nget (kcs s) c = 0 \/ chain_ok s c \/ exists n, aget (pend s) (W c n) = Some HistSet.
+
+Lemma ginv_ensure_gap_weak s c :
+  (forall a st, aget (pend s) a = Some st -> known s a = true) ->
+  (forall a, used s a = true -> known s a = true) ->
+  (forall c', c' <> c -> chain_disj s c') -> GInv (ensure_gap s c).
 Proof.
-  intro G. destruct (ensure_gap_fields s c) as [_ [_ [_ [_ [EH [EP _]]]]]].
+  intros KP KH CD. destruct (ensure_gap_fields s c) as [_ [_ [_ [_ [EH [EP _]]]]]].
   constructor.
-  - intros a st J. rewrite EP in J. apply known_ensure_gap. eapply g_known_pend; eauto.
-  - intros a U. rewrite (used_ext s) in U; auto. apply known_ensure_gap. apply (g_known_hist s G). exact U.
+  - intros a st J. rewrite EP in J. apply known_ensure_gap. eapply KP; eauto.
+  - intros a U. rewrite (used_ext s) in U; auto. apply known_ensure_gap. apply KH. exact U.
   - intro c'. destruct (N.eq_dec c c') as [E|E].
-    + subst. right. left. apply ensure_gap_chain. apply (g_known_hist s G).
-    + destruct (g_chain s G c') as [H|[H|[n H]]].
+    + subst. right. left. apply ensure_gap_chain. exact KH.
+    + destruct (CD c') as [H|[H|[n H]]]; [congruence| | |].
       * left. apply ensure_gap_k0; auto.
       * right. left. apply ensure_gap_other; auto.
       * right. right. exists n. rewrite EP. exact H.
 Qed.
+
+Lemma ginv_ensure_gap s c : GInv s -> GInv (ensure_gap s c).
+Proof.
+  intro G. apply ginv_ensure_gap_weak.
+  - apply (g_known_pend s G).
+  - apply (g_known_hist s G).
+  - intros c' _. apply (g_chain s G).
+Qed.
+
+Lemma ginv_ext s s' : hists s' = hists s -> pend s' = pend s -> kcs s' = kcs s -> gaps s' = gaps s ->
+  GInv s -> GInv s'.
+Proof.
+  intros A B C D G. constructor.
+  - intros a st J. rewrite B in J. unfold known. rewrite C. eapply (g_known_pend s G); eauto.
+  - intros a U. rewrite (used_ext s) in U; auto. unfold known. rewrite C. apply (g_known_hist s G). exact U.
+  - intro c. destruct (g_chain s G c) as [H|[H|[n H]]].
+    + left. rewrite C. exact H.
+    + right. left. eapply chain_ok_ext; eauto.
+    + right. right. exists n. rewrite B. exact H.
+Qed.
+
+Lemma begin_pend s a st : pend (begin s a st) = pend s \/ exists H B, pend (begin s a st) = aset (pend s) a (Fetched H B).
+Proof.
+  unfold begin. destruct (hist_eqb _ _); auto.
+  match goal with |- context [match ?x with _ => _ end] => destruct x end; auto.
+  right. eexists. eexists. reflexivity.
+Qed.
+
+Lemma used_aset_other s' s a b v : hists s' = aset (hists s) a v -> a <> b -> used s' b = used s b.
+Proof. intros E N. unfold used, get_hist. rewrite E. rewrite aget_aset_other; auto. Qed.
+
+Lemma ginv_step s o s' : step s o = Some s' -> GInv s -> GInv s'.
+Proof.
+  intros ST G. destruct o as [S'|a st|a|a|a|c]; simpl in ST.
+  - destruct (server_ok_b S' && grows_b (server s) S'); [|discriminate]. inversion ST; subst.
+    apply (ginv_ext s); auto.
+  - destruct (known s a) eqn:KA; [|discriminate]. destruct (aget (pend s) a) eqn:PA; [discriminate|].
+    inversion ST; subst. destruct (begin_fields s a st) as [_ [_ [_ [EH [EK EG]]]]].
+    destruct (begin_pend s a st) as [EP|[H [B EP]]].
+    + apply (ginv_ext s); auto.
+    + constructor.
+      * intros b st0 J. unfold known. rewrite EK. rewrite EP, aget_aset_if in J.
+        destruct (addr_eqb a b) eqn:E.
+        -- apply addr_eqb_eq in E. subst. exact KA.
+        -- eapply (g_known_pend s G); eauto.
+      * intros b U. rewrite (used_ext s) in U; auto. unfold known. rewrite EK. apply (g_known_hist s G). exact U.
+      * intro c. destruct (g_chain s G c) as [Q|[Q|[n Q]]].
+        -- left. rewrite EK. exact Q.
+        -- right. left. eapply chain_ok_ext; eauto.
+        -- right. right. exists n. rewrite EP, aget_aset_other; auto. intro X. subst. congruence.
+  - destruct (aget (pend s) a) as [[H B|H|]|] eqn:PA; try discriminate. inversion ST; subst; clear ST.
+    assert (KA := g_known_pend s G a _ PA).
+    constructor.
+    + intros b st0 J. unfold known, save in *. cbn [kcs pend] in *. rewrite aget_aset_if in J.
+      destruct (addr_eqb a b) eqn:E.
+      * apply addr_eqb_eq in E. subst. exact KA.
+      * eapply (g_known_pend s G); eauto.
+    + intros b U. destruct (addr_eqb a b) eqn:E.
+      * apply addr_eqb_eq in E. subst. exact KA.
+      * apply addr_eqb_neq in E. rewrite (used_aset_other _ s a b []) in U; auto.
+        apply (g_known_hist s G) in U. exact U.
+    + intro c. destruct (g_chain s G c) as [Q|[Q|[n Q]]].
+      * left. exact Q.
+      * right. left. unfold chain_ok in *. unfold save. cbn [kcs gaps].
+        apply lead_ext with (u := fun n => used s (W c n)); auto. intros n U.
+        destruct (addr_eqb a (W c n)) eqn:E.
+        -- apply addr_eqb_eq in E. subst. unfold used, get_hist in U. cbn [hists] in U.
+           rewrite aget_aset_same in U. discriminate.
+        -- apply addr_eqb_neq in E. rewrite (used_aset_other _ s a (W c n) []) in U; auto.
+      * right. right. exists n. unfold save. cbn [pend]. rewrite aget_aset_other; auto.
+        intro X. subst. congruence.
+  - destruct (aget (pend s) a) as [[H B|H|]|] eqn:PA; try discriminate. inversion ST; subst; clear ST.
+    assert (KA := g_known_pend s G a _ PA).
+    constructor.
+    + intros b st0 J. unfold known, set_history in *. cbn [kcs pend] in *. rewrite aget_aset_if in J.
+      destruct (addr_eqb a b) eqn:E.
+      * apply addr_eqb_eq in E. subst. exact KA.
+      * eapply (g_known_pend s G); eauto.
+    + intros b U. destruct (addr_eqb a b) eqn:E.
+      * apply addr_eqb_eq in E. subst. exact KA.
+      * apply addr_eqb_neq in E. rewrite (used_aset_other _ s a b H) in U; auto.
+        apply (g_known_hist s G) in U. exact U.
+    + intro c. destruct a as [ca na|k].
+      * destruct (N.eq_dec ca c) as [E|E].
+        -- subst. right. right. exists na. unfold set_history. cbn [pend]. apply aget_aset_same.
+        -- destruct (g_chain s G c) as [Q|[Q|[n Q]]].
+           ++ left. exact Q.
+           ++ right. left. unfold chain_ok in *. unfold set_history. cbn [kcs gaps].
+              apply lead_ext with (u := fun n => used s (W c n)); auto. intros n U.
+              rewrite (used_aset_other _ s (W ca na) (W c n) H) in U; auto. congruence.
+           ++ right. right. exists n. unfold set_history. cbn [pend]. rewrite aget_aset_other; auto. congruence.
+      * simpl in KA. discriminate.
+  - destruct (aget (pend s) a) as [[H B|H|]|] eqn:PA; try discriminate.
+    destruct a as [c n|k]; simpl in ST; [|discriminate]. inversion ST; subst; clear ST.
+    apply ginv_ensure_gap_weak.
+    + intros b st0 J. cbn [pend set_pend] in J. destruct (addr_eqb (W c n) b) eqn:E.
+      * apply addr_eqb_eq in E. subst. rewrite aget_adel_same in J. discriminate.
+      * apply addr_eqb_neq in E. rewrite aget_adel_other in J; auto. eapply (g_known_pend s G); eauto.
+    + intros b U. apply (g_known_hist s G). exact U.
+    + intros c' N. destruct (g_chain s G c') as [Q|[Q|[n' Q]]].
+      * left. exact Q.
+      * right. left. exact Q.
+      * right. right. exists n'. cbn [pend set_pend]. rewrite aget_adel_other; auto. congruence.
+  - inversion ST; subst. apply ginv_ensure_gap. exact G.
+Qed.
+
+Lemma ginv_init g : GInv (init g).
+Proof.
+  constructor; simpl.
+  - intros a st J. discriminate.
+  - intros a U. unfold used, get_hist in U. simpl in U. discriminate.
+  - intro c. left. reflexivity.
+Qed.
+
+Lemma ginv_run ops : forall s s', run s ops = Some s' -> GInv s -> GInv s'.
+Proof.
+  induction ops as [|o ops IH]; simpl; intros s s' R G.
+  - inversion R; subst. exact G.
+  - destruct (step s o) as [s1|] eqn:ST; [|discriminate]. eapply IH; eauto. eapply ginv_step; eauto.
+Qed.
+
+(* at a quiescent point every chain has its full gap of unused addresses behind the last used one *)
+Lemma gap_quiescent g ops s : run (init g) ops = Some s -> quiescent s ->
+  forall c n n', known s (W c n') = true -> used s (W c n') = true -> n <= n' + nget (gaps s) c ->
+  known s (W c n) = true.
+Proof.
+  intros R Q c n n' K U L. assert (G := ginv_run _ _ _ R (ginv_init g)).
+  simpl in K. apply Nat.ltb_lt in K. simpl. apply Nat.ltb_lt.
+  destruct (g_chain s G c) as [H|[H|[m H]]].
+  - lia.
+  - unfold chain_ok in H.
+    assert (X := lead_full (fun n => used s (W c n)) _ _ n' H K U). lia.
+  - rewrite Q in H. discriminate.
+Qed.
+
+(* ================================================================================================ *)
+(* a sync of address a against the current server state brings a's stored history up to it *)
+Definition good (s : state) (a : addr) : Prop :=
+  match aget (pend s) a with
+  | None => incl (server_hist (server s) a) (get_hist s a)
+  | Some (Fetched H _) => H = server_hist (server s) a
+  | Some (Saved H) => H = server_hist (server s) a
+  | Some HistSet => get_hist s a = server_hist (server s) a
+  end.
+
+Definition is_server (o : op) : bool := match o with Server _ => true | _ => false end.
+
+Lemma good_ext s s' a : server s' = server s -> aget (pend s') a = aget (pend s) a ->
+  get_hist s' a = get_hist s a -> good s a -> good s' a.
+Proof. intros A B C. unfold good. rewrite A, B, C. auto. Qed.
+
+Lemma filter_nil {A} (f : A -> bool) l : filter f l = [] -> forall x, In x l -> f x = false.
+Proof.
+  induction l as [|y l IH]; simpl; intros H x J; [contradiction|].
+  destruct (f y) eqn:E; [discriminate|]. destruct J as [J|J]; subst; auto.
+Qed.
+
+Lemma begin_cases s a st :
+  (begin s a st = s /\ (get_hist s a = st \/ incl (server_hist (server s) a) (get_hist s a))) \/
+  exists B, begin s a st = set_pend s (aset (pend s) a (Fetched (server_hist (server s) a) B)).
+Proof.
+  unfold begin. destruct (hist_eqb (get_hist s a) st) eqn:E.
+  - left. split; auto. left. apply hist_eqb_eq. exact E.
+  - match goal with |- context [match ?x with _ => _ end] => destruct x eqn:En end.
+    + left. split; auto. right. intros e J. assert (Q := filter_nil _ _ En e J).
+      apply negb_false_iff in Q. apply mem_entry_In. exact Q.
+    + right. eexists. reflexivity.
+Qed.
+
+Lemma get_hist_ensure_gap s c a : get_hist (ensure_gap s c) a = get_hist s a.
+Proof. destruct (ensure_gap_fields s c) as [_ [_ [_ [_ [E _]]]]]. unfold get_hist. rewrite E. reflexivity. Qed.
+
+Lemma step_good_keep s o s' a : step s o = Some s' -> is_server o = false -> good s a -> good s' a.
+Proof.
+  intros ST NS G. destruct o as [S'|b st|b|b|b|c]; simpl in ST; [discriminate| | | | |].
+  - destruct (known s b); [|discriminate]. destruct (aget (pend s) b) eqn:PB; [discriminate|]. inversion ST; subst; clear ST.
+    destruct (begin_cases s b st) as [[E _]|[B E]]; rewrite E; auto.
+    destruct (addr_eqb b a) eqn:EA.
+    + apply addr_eqb_eq in EA. subst. unfold good. cbn [pend set_pend server]. rewrite aget_aset_same. reflexivity.
+    + apply addr_eqb_neq in EA. apply (good_ext s); auto. cbn [pend set_pend]. apply aget_aset_other; auto.
+  - destruct (aget (pend s) b) as [[H B|H|]|] eqn:PB; try discriminate. inversion ST; subst; clear ST.
+    destruct (addr_eqb b a) eqn:EA.
+    + apply addr_eqb_eq in EA. subst. unfold good in *. rewrite PB in G. unfold save. cbn [pend server].
+      rewrite aget_aset_same. exact G.
+    + apply addr_eqb_neq in EA. apply (good_ext s); auto.
+      * unfold save. cbn [pend]. apply aget_aset_other; auto.
+      * unfold get_hist, save. cbn [hists]. rewrite aget_aset_other; auto.
+  - destruct (aget (pend s) b) as [[H B|H|]|] eqn:PB; try discriminate. inversion ST; subst; clear ST.
+    destruct (addr_eqb b a) eqn:EA.
+    + apply addr_eqb_eq in EA. subst. unfold good in *. rewrite PB in G. unfold set_history. cbn [pend server].
+      rewrite aget_aset_same. unfold get_hist. cbn [hists]. rewrite aget_aset_same. exact G.
+    + apply addr_eqb_neq in EA. apply (good_ext s); auto.
+      * unfold set_history. cbn [pend]. apply aget_aset_other; auto.
+      * unfold get_hist, set_history. cbn [hists]. rewrite aget_aset_other; auto.
+  - destruct (aget (pend s) b) as [[H B|H|]|] eqn:PB; try discriminate.
+    destruct (chain_of b) as [c|]; [|discriminate]. inversion ST; subst; clear ST.
+    destruct (ensure_gap_fields (set_pend s (adel (pend s) b)) c) as [E1 [_ [_ [_ [_ [E2 _]]]]]].
+    destruct (addr_eqb b a) eqn:EA.
+    + apply addr_eqb_eq in EA. subst. unfold good in *. rewrite PB in G. rewrite E1, E2. cbn [pend set_pend server].
+      rewrite aget_adel_same. rewrite get_hist_ensure_gap. unfold get_hist in *. cbn [hists set_pend]. rewrite G.
+      apply incl_refl.
+    + apply addr_eqb_neq in EA. apply (good_ext s); auto.
+      * rewrite E2. cbn [pend set_pend]. apply aget_adel_other; auto.
+      * rewrite get_hist_ensure_gap. reflexivity.
+  - inversion ST; subst. destruct (ensure_gap_fields s c) as [E1 [_ [_ [_ [_ [E2 _]]]]]].
+    apply (good_ext s); auto. rewrite E2. reflexivity. apply get_hist_ensure_gap.
+Qed.
+
+Lemma step_begin_good s a s' : step s (Begin a (server_hist (server s) a)) = Some s' -> good s' a.
+Proof.
+  simpl. destruct (known s a); [|discriminate]. destruct (aget (pend s) a) eqn:PA; [discriminate|].
+  intro ST. inversion ST; subst; clear ST.
+  destruct (begin_cases s a (server_hist (server s) a)) as [[E Q]|[B E]]; rewrite E.
+  - unfold good. rewrite PA. destruct Q as [Q|Q]; auto. rewrite Q. apply incl_refl.
+  - unfold good. cbn [pend set_pend server]. rewrite aget_aset_same. reflexivity.
+Qed.
+
+Lemma run_good ops : forall s s' a, run s ops = Some s' -> forallb (fun o => negb (is_server o)) ops = true ->
+  good s a \/ In (Begin a (server_hist (server s) a)) ops -> server s' = server s /\ good s' a.
+Proof.
+  induction ops as [|o ops IH]; simpl; intros s s' a R NS H.
+  - inversion R; subst. destruct H as [H|[]]. auto.
+  - destruct (step s o) as [s1|] eqn:ST; [|discriminate].
+    apply andb_true_iff in NS. destruct NS as [N1 N2]. apply negb_true_iff in N1.
+    assert (ES: server s1 = server s).
+    { destruct (step_server _ _ _ ST) as [E|[S' [E _]]]; auto. subst o. discriminate. }
+    assert (G1: good s1 a \/ In (Begin a (server_hist (server s1) a)) ops).
+    { destruct H as [H|[H|H]].
+      - left. eapply step_good_keep; eauto.
+      - left. subst o. eapply step_begin_good; eauto.
+      - right. rewrite ES. exact H. }
+    destruct (IH _ _ _ R N2 G1) as [A B]. split; auto. congruence.
+Qed.
+
+(* ================================================================================================ *)
+(* statements used by Props/C09.v *)
+Lemma run_app ops1 : forall ops2 s s1 s2, run s ops1 = Some s1 -> run s1 ops2 = Some s2 -> run s (ops1 ++ ops2) = Some s2.
+Proof.
+  induction ops1 as [|o ops1 IH]; simpl; intros ops2 s s1 s2 R1 R2.
+  - inversion R1; subst. exact R2.
+  - destruct (step s o) as [s'|]; [|discriminate]. eapply IH; eauto.
+Qed.
+
+Definition no_server (ops : list op) : Prop := forallb (fun o => negb (is_server o)) ops = true.
+
+Lemma rows_monotone ops s s' : run s ops = Some s' ->
+  (forall r, In r (txo_t s) -> In r (txo_t s')) /\ (forall r, In r (txi_t s) -> In r (txi_t s')) /\
+  (forall p, In p (ids (tx_t s)) -> In p (ids (tx_t s'))) /\ (forall a, known s a = true -> known s' a = true).
+Proof.
+  intro R. destruct (run_le _ _ _ R) as [[A [B C]] D]. split; [|split; [|split]]; auto.
+  intros p J. apply mem_id_In. apply C. apply mem_id_In. exact J.
+Qed.
+
+Lemma rows_sound g ops s : run (init g) ops = Some s ->
+  (forall r, In r (txo_t s) -> exists t h, In (t, h) (server s) /\ r_txid r = t_id t /\
+       nth_error (t_outs t) (r_pos r) = Some (r_out r) /\ r_type r = txo_type t (r_pos r) (r_out r)) /\
+  (forall i, In i (txi_t s) -> exists t h t' h' o, In (t, h) (server s) /\ i_txid i = t_id t /\
+       nth_error (t_ins t) (i_ipos i) = Some (i_prev i, i_ppos i) /\ In (t', h') (server s) /\ t_id t' = i_prev i /\
+       nth_error (t_outs t') (i_ppos i) = Some o /\ pays (i_addr i) o = true) /\
+  (forall x, In x (tx_t s) -> exists h, In (fst x, h) (server s)).
+Proof.
+  intro R. destruct (reach_inv _ _ _ R) as [_ I]. split; [|split].
+  - intros r J. destruct (inv_txo _ _ I r J) as [t [[h T] Q]]. exists t, h. tauto.
+  - intros i J. destruct (inv_txi _ _ I i J) as [t [t' [o [[h T] [A [B [[h' T'] [C [D E]]]]]]]]].
+    exists t, h, t', h', o. tauto.
+  - intros x J. apply (inv_tx _ _ I x J).
+Qed.
+
+Lemma address_complete g ops1 ops2 s1 s2 a :
+  run (init g) ops1 = Some s1 -> run s1 ops2 = Some s2 -> no_server ops2 ->
+  In (Begin a (server_hist (server s1) a)) ops2 ->
+  server s2 = server s1 /\
+  (aget (pend s2) a = Some HistSet -> get_hist s2 a = server_hist (server s2) a) /\
+  (aget (pend s2) a = None -> incl (server_hist (server s2) a) (get_hist s2 a)).
+Proof.
+  intros R1 R2 NS B. destruct (run_good _ _ _ a R2 NS (or_intror B)) as [E G].
+  split; auto. unfold good in G. split; intro P; rewrite P in G; exact G.
+Qed.
+
+Section Recorded.
+Variables (g : list (N * nat)) (ops : list op) (s : state) (a : addr).
+Hypothesis R : run (init g) ops = Some s.
+Hypothesis SY : incl (server_hist (server s) a) (get_hist s a).
+Let okF := proj1 (reach_inv g ops s R).
+Let I := proj2 (reach_inv g ops s R).
+
+Lemma addr_cov t h : In (t, h) (server s) -> touches (server s) a t = true -> cov (server s) s a t.
+Proof.
+  intros T TO.
+  assert (J: In (t_id t, h) (get_hist s a)).
+  { apply SY; auto. apply server_hist_In. exists t, h. auto. }
+  destruct (inv_hist _ _ I a _ J) as [t2 [A [B C]]]. simpl in B.
+  assert (t2 = t). { apply (F_inj _ okF); auto. exists h. exact T. } subst. exact C.
+Qed.
+
+Lemma addr_txo t h pos o : In (t, h) (server s) -> nth_error (t_outs t) pos = Some o -> o_kind o = PKH a ->
+  has_txo (txo_t s) (t_id t) pos = true.
+Proof.
+  intros T N P. apply pays_PKH in P.
+  destruct (addr_cov t h T (touches_pays _ _ _ _ _ N P)) as [A _]. eapply A; eauto.
+Qed.
+
+Lemma addr_txi t h k p i t' h' o : In (t, h) (server s) -> nth_error (t_ins t) k = Some (p, i) ->
+  In (t', h') (server s) -> t_id t' = p -> nth_error (t_outs t') i = Some o -> o_kind o = PKH a ->
+  has_txi (txi_t s) p i = true.
+Proof.
+  intros T N T' E O P. apply pays_PKH in P.
+  assert (TO: touches (server s) a t = true).
+  { unfold touches. apply orb_true_iff. right. apply existsb_exists. exists (p, i). split.
+    eapply nth_error_In; eauto. unfold spends_from, out_at. simpl.
+    destruct (find_tx_exists _ _ _ T') as [t2 Q]. rewrite E in Q. rewrite Q.
+    apply find_tx_some in Q. destruct Q as [Q1 [h2 Q2]].
+    assert (t2 = t'). { apply (F_inj _ okF). exists h2; auto. exists h'; auto. congruence. }
+    subst. rewrite O. exact P. }
+  destruct (addr_cov t h T TO) as [_ [B _]]. eapply B; eauto. exists h'. exact T'.
+Qed.
+End Recorded.
+
+Lemma in_sync_reached g ops1 ops2 s1 s2 :
+  run (init g) ops1 = Some s1 -> run s1 ops2 = Some s2 -> no_server ops2 -> quiescent s2 ->
+  (forall a, known s2 a = true -> In (Begin a (server_hist (server s1) a)) ops2) -> in_sync s2.
+Proof.
+  intros R1 R2 NS Q B a K. destruct (run_good _ _ _ a R2 NS (or_intror (B a K))) as [E G].
+  unfold good in G. rewrite Q in G. exact G.
+Qed.
+
+Lemma gap_found g ops s : run (init g) ops = Some s -> quiescent s -> in_sync s ->
+  forall c n n', known s (W c n') = true -> server_hist (server s) (W c n') <> [] -> n <= n' + nget (gaps s) c ->
+  known s (W c n) = true.
+Proof.
+  intros R Q SY c n n' K H L. eapply gap_quiescent; eauto.
+  unfold used. assert (J := SY _ K). destruct (server_hist (server s) (W c n')) as [|e r]; [congruence|].
+  destruct (get_hist s (W c n')); auto. exfalso. apply (J e). simpl. auto.
+Qed.
+
+Lemma gaps_const ops : forall s s', run s ops = Some s' -> gaps s' = gaps s.
+Proof.
+  induction ops as [|o ops IH]; simpl; intros s s' R.
+  - inversion R; subst. reflexivity.
+  - destruct (step s o) as [s1|] eqn:ST; [|discriminate]. rewrite (IH _ _ R).
+    destruct o as [S'|a st|a|a|a|c]; simpl in ST.
+    + destruct (server_ok_b S' && grows_b (server s) S'); [|discriminate]. inversion ST; subst. reflexivity.
+    + destruct (known s a); [|discriminate]. destruct (aget (pend s) a); [discriminate|]. inversion ST; subst.
+      destruct (begin_fields s a st) as [_ [_ [_ [_ [_ E]]]]]. exact E.
+    + destruct (aget (pend s) a) as [[H B|H|]|]; try discriminate. inversion ST; subst. reflexivity.
+    + destruct (aget (pend s) a) as [[H B|H|]|]; try discriminate. inversion ST; subst. reflexivity.
+    + destruct (aget (pend s) a) as [[H B|H|]|]; try discriminate. destruct (chain_of a); [|discriminate].
+      inversion ST; subst.
+      destruct (ensure_gap_fields (set_pend s (adel (pend s) a)) n) as [_ [_ [_ [_ [_ [_ E]]]]]]. rewrite E. reflexivity.
+    + inversion ST; subst. destruct (ensure_gap_fields s c) as [_ [_ [_ [_ [_ [_ E]]]]]]. exact E.
+Qed.
+
+Lemma address_recorded g ops s a : run (init g) ops = Some s ->
+  incl (server_hist (server s) a) (get_hist s a) ->
+  (forall t h pos o, In (t, h) (server s) -> nth_error (t_outs t) pos = Some o -> o_kind o = PKH a ->
+     has_txo (txo_t s) (t_id t) pos = true) /\
+  (forall t h k p i t' h' o, In (t, h) (server s) -> nth_error (t_ins t) k = Some (p, i) ->
+     In (t', h') (server s) -> t_id t' = p -> nth_error (t_outs t') i = Some o -> o_kind o = PKH a ->
+     has_txi (txi_t s) p i = true).
+Proof. intros R SY. exact (conj (addr_txo g ops s a R SY) (addr_txi g ops s a R SY)). Qed.
+
+(* ================================================================================================ *)
+(* balance = sum over the specification set (needs: no duplicate rows on either side) *)
+Definition key (r : txo_row) : N * nat := (r_txid r, r_pos r).
+
+Lemma NoDup_snoc {A} (l : list A) x : NoDup l -> ~ In x l -> NoDup (l ++ [x]).
+Proof.
+  induction l as [|y l IH]; simpl; intros N I.
+  - constructor; [intros []|constructor].
+  - inversion N; subst. constructor.
+    + intro J. apply in_app_or in J. destruct J as [J|[J|[]]]; auto.
+    + apply IH; auto.
+Qed.
+Lemma NoDup_app_intro {A} (l1 l2 : list A) : NoDup l1 -> NoDup l2 -> (forall x, In x l1 -> ~ In x l2) -> NoDup (l1 ++ l2).
+Proof.
+  induction l1 as [|y l IH]; simpl; intros N1 N2 D; auto.
+  inversion N1; subst. constructor.
+  - intro J. apply in_app_or in J. destruct J as [J|J]; auto. apply (D y); auto.
+  - apply IH; auto.
+Qed.
+
+Lemma has_txo_key l p i : has_txo l p i = true <-> In (p, i) (map key l).
+Proof.
+  rewrite has_txo_In, in_map_iff. unfold key. split.
+  - intros [r [A [B C]]]. exists r. subst. auto.
+  - intros [r [A B]]. inversion A; subst. exists r. auto.
+Qed.
+
+Lemma ins_txo_nodup l r : NoDup (map key l) -> NoDup (map key (ins_txo l r)).
+Proof.
+  intro N. unfold ins_txo. destruct (has_txo l (r_txid r) (r_pos r)) eqn:E; auto.
+  rewrite map_app. simpl. apply NoDup_snoc; auto. intro J. apply has_txo_key in J. congruence.
+Qed.
+Lemma fold_ins_txo_nodup rows : forall l, NoDup (map key l) -> NoDup (map key (fold_left ins_txo rows l)).
+Proof. induction rows as [|r rows IH]; simpl; auto. intros. apply IH. apply ins_txo_nodup. auto. Qed.
+Lemma save_list_nodup a L : forall d, NoDup (map key (d_txo d)) -> NoDup (map key (d_txo (save_list a L d))).
+Proof.
+  induction L as [|xr L IH]; simpl; auto. intros d N. apply IH. simpl. apply fold_ins_txo_nodup. exact N.
+Qed.
+
+Lemma step_nodup s o s' : step s o = Some s' -> NoDup (map key (txo_t s)) -> NoDup (map key (txo_t s')).
+Proof.
+  intros ST N. destruct o as [S'|a st|a|a|a|c]; simpl in ST.
+  - destruct (server_ok_b S' && grows_b (server s) S'); [|discriminate]. inversion ST; subst. exact N.
+  - destruct (known s a); [|discriminate]. destruct (aget (pend s) a); [discriminate|]. inversion ST; subst.
+    destruct (begin_fields s a st) as [_ [E _]]. rewrite E. exact N.
+  - destruct (aget (pend s) a) as [[H B|H|]|]; try discriminate. inversion ST; subst.
+    unfold save, save_batch. cbn [txo_t].
+    match goal with |- context [fold_left ?f ?L ?d] => change (fold_left f L d) with (save_list a L d) end.
+    apply save_list_nodup. exact N.
+  - destruct (aget (pend s) a) as [[H B|H|]|]; try discriminate. inversion ST; subst. exact N.
+  - destruct (aget (pend s) a) as [[H B|H|]|]; try discriminate. destruct (chain_of a); [|discriminate].
+    inversion ST; subst. destruct (ensure_gap_fields (set_pend s (adel (pend s) a)) n) as [_ [_ [E _]]].
+    rewrite E. exact N.
+  - inversion ST; subst. destruct (ensure_gap_fields s c) as [_ [_ [E _]]]. rewrite E. exact N.
+Qed.
+Lemma run_nodup ops : forall s s', run s ops = Some s' -> NoDup (map key (txo_t s)) -> NoDup (map key (txo_t s')).
+Proof.
+  induction ops as [|o ops IH]; simpl; intros s s' R N.
+  - inversion R; subst. exact N.
+  - destruct (step s o) as [s1|] eqn:ST; [|discriminate]. eapply IH; eauto. eapply step_nodup; eauto.
+Qed.
+
+Lemma nodup_ids_NoDup l : nodup_ids l = true -> NoDup l.
+Proof.
+  induction l as [|x l IH]; simpl; intro H; constructor.
+  - apply andb_true_iff in H. destruct H as [H _]. apply negb_true_iff in H. intro J.
+    apply mem_id_In in J. congruence.
+  - apply IH. apply andb_true_iff in H. tauto.
+Qed.
+
+Lemma all_outputs_nodup S : nodup_ids (ids S) = true -> NoDup (map key (all_outputs S)).
+Proof.
+  induction S as [|[t h] S IH]; simpl; intro N; [constructor|].
+  apply andb_true_iff in N. destruct N as [N1 N2]. apply negb_true_iff in N1.
+  unfold all_outputs. simpl. rewrite map_app. apply NoDup_app_intro.
+  - rewrite map_map. unfold key. simpl. unfold enum.
+    assert (G: forall (l : list output) b, NoDup (map (fun x : nat * output => (t_id t, fst x)) (combine (seq b (length l)) l))).
+    { induction l as [|o l IHl]; intro b; simpl; constructor.
+      - intro J. apply in_map_iff in J. destruct J as [[k o'] [J1 J2]]. simpl in J1. inversion J1; subst.
+        apply in_combine_l in J2. apply in_seq in J2. lia.
+      - apply IHl. }
+    apply G.
+  - apply IH. exact N2.
+  - intros x J1 J2. apply in_map_iff in J1. destruct J1 as [r1 [A1 B1]]. apply in_map_iff in B1.
+    destruct B1 as [ko [C1 _]]. subst r1. unfold key in A1. simpl in A1.
+    apply in_map_iff in J2. destruct J2 as [r2 [A2 B2]].
+    change (flat_map _ S) with (all_outputs S) in B2.
+    apply all_outputs_In in B2. destruct B2 as [t2 [h2 [T2 [_ [E2 _]]]]].
+    assert (mem_id (t_id t) (ids S) = true); [|congruence].
+    apply mem_id_In. apply ids_In. exists t2, h2. split; auto. subst x. unfold key in A2. inversion A2. congruence.
+Qed.
+
+Lemma sum_amount_perm l l' : Permutation l l' -> sum_amount l = sum_amount l'.
+Proof.
+  induction 1; simpl; auto.
+  - rewrite IHPermutation. reflexivity.
+  - rewrite !N.add_assoc. f_equal. apply N.add_comm.
+  - congruence.
+Qed.
+
+Lemma balance_spec g ops s : run (init g) ops = Some s -> in_sync s ->
+  forall cs (f : txo_row -> bool),
+    sum_amount (filter f (utxos s cs)) = sum_amount (filter f (spec_utxos (server s) s cs)).
+Proof.
+  intros R SY cs f. apply sum_amount_perm. apply NoDup_Permutation.
+  - apply NoDup_filter. unfold utxos. apply NoDup_filter. apply (NoDup_map_inv key).
+    eapply run_nodup; eauto. simpl. constructor.
+  - apply NoDup_filter. unfold spec_utxos. apply NoDup_filter. apply (NoDup_map_inv key).
+    apply all_outputs_nodup. destruct (reach_inv _ _ _ R) as [OK _]. apply ok_parts in OK. tauto.
+  - intro r. rewrite !filter_In. rewrite (conv_utxos g ops s R SY cs r). tauto.
+Qed.
+
+Lemma balance_eqs g ops s : run (init g) ops = Some s -> in_sync s -> forall cs,
+  balance s cs = sum_amount (filter (fun r => spendable_type (r_type r)) (spec_utxos (server s) s cs)) /\
+  claims_total s cs = sum_amount (filter (fun r => claim_type (r_type r)) (spec_utxos (server s) s cs)) /\
+  supports_total s cs = sum_amount (filter (fun r => N.eqb (r_type r) 3) (spec_utxos (server s) s cs)) /\
+  total s cs = sum_amount (spec_utxos (server s) s cs).
+Proof.
+  intros R SY cs. unfold balance, spendable, claims_total, supports_total, total.
+  split; [|split; [|split]]; try apply (balance_spec g ops s R SY cs).
+  assert (Q := balance_spec g ops s R SY cs (fun _ => true)).
+  assert (T: forall l : list txo_row, filter (fun _ => true) l = l).
+  { induction l; simpl; congruence. }
+  rewrite !T in Q. exact Q.
+Qed.
+
+(* ---------- a concrete interleaved run (non-vacuity) ---------- *)
+Definition ex_t1 : tx := mkTx 1 [(0%N, 0)] [mkOut (PKH (W 0 0)) 1000 0 false; mkOut (SH 9) 5 0 false].
+Definition ex_t2 : tx := mkTx 2 [(1%N, 0)] [mkOut (PKH (W 0 1)) 600 0 false; mkOut (PKH (W 0 0)) 300 1 false;
+                                             mkOut (PKH (X 7)) 50 0 false].
+Definition ex_S : list stx := [(ex_t1, 5%Z); (ex_t2, 0%Z)].
+Definition ex_ops : list op :=
+  [GapChain 0; Server ex_S;
+   Begin (W 0 1) [(2%N, 0%Z)]; Begin (W 0 0) [(1%N, 5%Z); (2%N, 0%Z)];
+   Save (W 0 1); Save (W 0 0); SetHist (W 0 0); SetHist (W 0 1); Gap (W 0 1);
+   Begin (W 0 2) []; Gap (W 0 0); Begin (W 0 3) []].
+Definition incl_b (l r : hist) : bool := forallb (fun e => mem_entry e r) l.
+Definition ex_report (s : state) :=
+  (balance s [0%N], claims_total s [0%N], map key (utxos s [0%N]), map key (spec_utxos (server s) s [0%N]),
+   nget (kcs s) 0, length (pend s),
+   forallb (fun n => incl_b (server_hist (server s) (W 0 n)) (get_hist s (W 0 n))) (seq 0 4)).
